@@ -114,3 +114,49 @@ package route
 //@ func ParseAliases
 //@   trusted
 //@   assigns nothing
+//@
+//@ // ---- C06 / C15: host-pattern cache ----------------------------------------------------------------------
+//@ spec fun gcInv(c *GlobCache) bool = c != nil && 0 <= c.n && c.n <= len(c.l) && 0 <= c.h && (c.n < len(c.l) ==> c.h == 0) && (c.n > 0 ==> c.h < c.n) && smapGlobs[addrOfField(c, m)]
+//@
+//@ func NewGlobCache
+//@   props C06 C15
+//@   requires size > 0
+//@   assigns nothing
+//@   ensures nopanic
+//@   ensures fresh(result) && len(result.l) == size && result.n == 0 && result.h == 0
+//@
+//@ func (*GlobCache).Get
+//@   props C06 C15
+//@   requires gcInv(c) && len(c.l) > 0
+//@   assigns c.n, c.h, c.l[*], smapGlobs
+//@   ensures nopanic
+//@   ensures gcInv(c) && len(c.l) == old(len(c.l))
+//@   ensures result1 != nil ==> !globOK(pattern)
+//@   ensures result1 == nil ==> result0 != nil
+//@
+//@ // ---- C04 / C06: pickers ------------------------------------------------------------------------------
+//@ func var:randIntn(n int) (result int)
+//@   props C04 C06
+//@   requires n >= 0
+//@   assigns nothing
+//@   ensures nopanic
+//@   ensures n == 0 ==> result == 0
+//@   ensures n > 0 ==> 0 <= result && result < n
+//@
+//@ func rndPicker
+//@   props C04 C06
+//@   requires r != nil && len(r.wTargets) > 0 && randIntn != nil
+//@   assigns nothing
+//@   ensures nopanic
+//@   ensures exists k int :: 0 <= k && k < len(r.wTargets) && result == r.wTargets[k]
+//@
+//@ func rrPicker
+//@   props C04 C06
+//@   requires r != nil && len(r.wTargets) > 0
+//@   assigns r.total
+//@   ensures nopanic
+//@   ensures result == r.wTargets[old(r.total) % len(r.wTargets)]
+//@   ensures r.total == (old(r.total) + 1) % 18446744073709551616
+//@
+//@ // the round-robin cursor is the only state a lookup may change; it is shared between requests
+//@ shared atomic Route.total props C06
